@@ -554,9 +554,9 @@ ARGV_FLAGS = [('--ignore-output', 'ignore_output'),
               ('--ignore-out', 'ignore_out'), ('--ignore-err', 'ignore_err'),
               ('--ignore-output-cc', 'ignore_output_cc'),
               ('--unchecked', 'unchecked')]
-ARGV_VALUES = [('--match-out', 'match_out', 'mo'),
-               ('--match-err', 'match_err', 'me'),
-               ('--match-out-cc', 'match_out_cc', 'moc'),
+ARGV_VALUES = [('--match-out', 'match_out', ' sat'),
+               ('--match-err', 'match_err', 'err: '),
+               ('--match-out-cc', 'match_out_cc', '\tx y '),
                ('--match-err-cc', 'match_err_cc', 'mec'),
                ('--timeout', 'timeout', 2.5), ('--timeout-cc', 'timeout_cc', 7.0),
                ('-c', 'cmd_cc', 'ref --x')]
